@@ -27,6 +27,7 @@ Block grammar (one directive per line; payloads between <<< and >>>):
   forit <fn> <k> <name>          names the ghost iterator of the k-th loop, which must be a `for`
   before <fn> "<anchor>" <<< ... >>>   ghost text before the unique occurrence of anchor in fn
   after  <fn> "<anchor>" <<< ... >>>   ghost text after it
+  afterstmt <fn> "<statement start>" <<< ... >>>   ghost text after the `;` ending the statement that starts with the anchor
   R3 <fn> <shape> [<k>]          desugar an iterator adapter / loop shape (see r3_* below); logged
   R4 "<old>" "<new>"             redirect a call to a trusted shim with the same signature; logged
   R5                             debug_assert!(e) -> assert(e)
@@ -1201,6 +1202,23 @@ def build_unit(unit_path, repo=REPO):
                 it.d_before(args[0], args[1], payload, int(args[2][1:]) if len(args) > 2 and args[2].startswith("#") else None)
             elif name == "after":
                 it.d_after(args[0], args[1], payload, int(args[2][1:]) if len(args) > 2 and args[2].startswith("#") else None)
+            elif name == "afterstmt":
+                # afterstmt <fn> "<how the statement starts>" <<< ghost >>>: ghost text after the `;` that ends the statement
+                # beginning with the anchor (the rest of the statement may change without losing the anchor)
+                a_, b_ = it.find_in_fn(args[0], args[1], int(args[2][1:]) if len(args) > 2 and args[2].startswith("#") else None)
+                j_, dep_ = b_, 0
+                while j_ < len(it.m):
+                    ch_ = it.m[j_]
+                    if ch_ in "([{":
+                        dep_ += 1
+                    elif ch_ in ")]}":
+                        dep_ -= 1
+                        if dep_ < 0:
+                            raise Undecided("LOST-ANCHOR: statement `%s` of fn %s in %s does not end with `;`" % (args[1], args[0], it.where()))
+                    elif ch_ == ";" and dep_ == 0:
+                        break
+                    j_ += 1
+                it.ghost(j_ + 1, "\n" + payload + "\n")
             elif name == "R3":
                 it.pending_r3 = getattr(it, "pending_r3", []) + [(args[0], args[1], int(args[2]) if len(args) > 2 else 1, payload)]
                 it.d_R3(args[0], args[1], int(args[2]) if len(args) > 2 else 1)
